@@ -211,16 +211,12 @@ def Clean (n : Bytes) : Prop := 10 ∉ n ∧ strip n = n ∧ utf8Valid n = true
 
 theorem decodeNames_clean (ns : List Bytes) (h : ∀ n ∈ ns, Clean n) : decodeNames ns = some ns := by
   unfold decodeNames
-  have h1 : ns.all (fun l => utf8Valid (strip l)) = true := by
-    rw [List.all_eq_true]
-    intro n hn
-    rw [(h n hn).2.1]; exact (h n hn).2.2
   have h2 : ns.map strip = ns := by
     have : ∀ n ∈ ns, strip n = n := fun n hn => (h n hn).2.1
-    clear h h1
+    clear h
     induction ns with
     | nil => rfl
     | cons x xs ih => simp [this x (by simp), ih (fun n hn => this n (by simp [hn]))]
-  simp [h1, h2]
+  simp [h2]
 
 end Ztr.Channel
